@@ -414,6 +414,64 @@ def logger_fields(rep, tier):
     return r.distinct, n
 
 
+def logger_repoint(rep, tier):
+    """Observers.tla's 're-assign file' on the observer that matters most: a Logger that is given another file (log rotation,
+    stdout -> file) writes its next header and rows THERE, complete and flushed, and nothing more into the old one."""
+    import sys as _sys
+
+    from quansino.io.logger import Logger
+
+    tmp = tempfile.mkdtemp(prefix="c16rp_")
+    n = 0
+    try:
+        for first in ("path", "stream", "stdout"):
+            for second in ("path", "stream"):
+                for calls_before in (0, 2):
+                    n += 1
+                    rep.count(("logger-repoint", first, second, calls_before), nontrivial=True)
+                    real_stdout = _sys.stdout
+                    fake = io.StringIO()
+                    s1 = io.StringIO()
+                    p1 = os.path.join(tmp, f"a{n}.log")
+                    try:
+                        if first == "stdout":
+                            _sys.stdout = fake
+                        lg = Logger({"path": p1, "stream": s1, "stdout": fake}[first], 1)   # (fake IS sys.stdout at this moment)
+                        val = [0.0]
+                        lg.add_field("X", lambda: val[0], "{:8.1f}")
+                        lg.write_header()
+                        for k in range(calls_before):
+                            val[0] = 1.0 + k
+                            lg()
+                        old_text = {"path": lambda: open(p1).read(), "stream": s1.getvalue, "stdout": fake.getvalue}[first]()
+                        s2 = io.StringIO()
+                        p2 = os.path.join(tmp, f"b{n}.log")
+                        lg.file = p2 if second == "path" else s2
+                        lg.write_header()
+                        for k in range(3):
+                            val[0] = 10.0 + k
+                            lg()
+                        new_text = open(p2).read() if second == "path" else s2.getvalue()
+                        old_after = {"path": lambda: open(p1).read(), "stream": (lambda: old_text if s1.closed else s1.getvalue()), "stdout": fake.getvalue}[first]()
+                        lg.close()
+                    except Exception as ex:  # noqa: BLE001
+                        _sys.stdout = real_stdout
+                        rep.violation(f"logger-repoint:raise:{first}->{second}:{type(ex).__name__}", f"a Logger on a {first} that is given a {second} ({calls_before} rows written before) raised {ex!r}", {"first": first, "second": second})
+                        continue
+                    finally:
+                        _sys.stdout = real_stdout
+                    rows = [ln.split() for ln in new_text.split("\n") if ln.strip()]
+                    want = [["X"], ["10.0"], ["11.0"], ["12.0"]]
+                    if rows != want or not new_text.endswith("\n"):
+                        rep.violation(f"logger-repoint:new-file:{first}->{second}", f"a Logger on a {first} re-pointed to a {second}: the new file holds {rows}, expected header + 3 rows {want}", {"first": first, "second": second, "text": new_text})
+                    elif [ln.split() for ln in old_after.split("\n") if ln.strip()] != [["X"]] + [[f"{1.0 + k:.1f}"] for k in range(calls_before)]:
+                        # (what was written before the switch -- the header may still have been buffered then -- and nothing else)
+                        rep.violation(f"logger-repoint:old-file:{first}->{second}", f"a Logger on a {first} re-pointed to a {second}: the old target holds something else than its header and the {calls_before} rows written before the switch", {"first": first, "second": second, "before": old_text, "after": old_after})
+    finally:
+        shutil.rmtree(tmp, ignore_errors=True)
+    return n
+
+
 def header_format(rep, tier):
     """HeaderFormat.tla: every format string enumerated by TLC goes through the real get_auto_header_format (text must
     equal the specification's), through str.format (the claimed width / alignment / padding of every header cell must be
@@ -855,6 +913,7 @@ def run(tier: str) -> int:
     sl, nl = logger_fields(rep, tier)
     states += sl
     rep.add(logger_field_histories=nl)
+    rep.add(logger_repoint_cases=logger_repoint(rep, tier))
     sh, nh = header_format(rep, tier)
     states += sh
     rep.add(header_format_strings=nh)
